@@ -164,6 +164,42 @@ class Patch(Relation):
                      f'point ({x[i]!r}, {y[i]!r}) origin {(ox, oy)}: in path '
                      f'{bool(in_path[i])}, region contains {bool(lib[i])}; '
                      f'{int(bad.sum())} of {int(sel.sum())} points')
+        if cls == 'RegularPolygonPixelRegion':
+            # the same object after an edit of its defining parameters:
+            # whatever point set the region NOW answers for, the patch must
+            # outline that same set (judged at positions that are clear of
+            # both the old and the new outline)
+            import astropy.units as u
+            reg2 = S.build(_strip(rs))
+            reg2.contains(PixCoord(x, y))
+            reg2.as_artist(origin=(ox, oy))
+            rs2 = dict(_strip(rs))
+            k = int(float(rs['radius']) * 1000) % 3
+            if k == 0:
+                rs2['radius'] = float(rs['radius']) * 1.5
+                reg2.radius = rs2['radius']
+            elif k == 1:
+                a0 = reg2.angle.to_value(u.deg)
+                rs2['angle'] = [a0 + 25.0, 'deg', 'Quantity']
+                reg2.angle = (a0 + 25.0) * u.deg
+            else:
+                rs2['center'] = [rs['center'][0] + 0.4 * size,
+                                 rs['center'][1] - 0.3 * size]
+                reg2.center = PixCoord(*rs2['center'])
+            ctx.label('regpoly-edited:' + ('radius', 'angle', 'center')[k])
+            lib2 = np.asarray(reg2.contains(PixCoord(x, y)))
+            polys2 = flatten(data_path(reg2.as_artist(origin=(ox, oy))))
+            in2 = winding(polys2, x - ox, y - oy) != 0
+            _, clear_new = ref.stripped_ref(rs2, x, y, pos_err=0.005 * size)
+            sel2 = definite & clear_new
+            bad2 = sel2 & (in2 != lib2)
+            if bad2.any():
+                i = int(np.argwhere(bad2)[0][0])
+                ctx.fail(f'{cls} | after an edit of {("radius", "angle", "center")[k]} '
+                         'the patch does not outline what the region contains',
+                         f'point ({x[i]!r}, {y[i]!r}): in path {bool(in2[i])}, '
+                         f'region contains {bool(lib2[i])}; '
+                         f'{int(bad2.sum())} of {int(sel2.sum())} points')
         if 'Annulus' in cls:
             areas = [signed_area(P) for P in polys]
             ctx.check(len(polys) == 2 and areas[0] * areas[1] < 0,
